@@ -19,7 +19,7 @@ RULE = ("pairs/lists of events on a small ms grid (any order, overlaps, zero/neg
 ASSUMPTIONS = ["pulsetimes are generated so that timedelta(seconds=p) is exact at µs",
                "data equality is Python equality of the data objects (as the code under test compares them): pools avoid the "
                "1/1.0/True ambiguity, and include tuple-vs-list and int-vs-str-key partners that are unequal although they "
-               "would serialise to the same JSON"]
+               "would serialise to the same JSON; equal data is also handed in with its keys filled in a different order"]
 
 
 def plan(tier):
@@ -168,6 +168,12 @@ _NEAR = [({"tags": ["work", "py"]}, {"tags": {"$tuple": ["work", "py"]}}),
 _PULSES_US = [0, 1, 999, 1000, 1500, 10**6, 5 * 10**6, 60 * 10**6, 10**9, 123457, 2 * 10**6 + 500000]
 
 
+def _reordered(rng, data):
+    if len(data) > 1 and rng.random() < 0.5:
+        return dict(reversed(list(data.items())))
+    return data
+
+
 def _pulse(rng):
     pu = rng.choice(_PULSES_US) if rng.random() < 0.8 else rng.randrange(0, 20 * 10**6)
     p = pu / 10**6
@@ -206,6 +212,8 @@ def gen_case(rng, ctx):
         d2 = rng.choice([0, 0, 1, 2, 4, 9, -1]) * unit + rng.choice([0, 0, 1, 999])
         x1 = rng.choice(_DATA)
         x2 = x1 if rng.random() < 0.7 else rng.choice(_DATA)
+        if x1 == x2 and len(x1) > 1 and rng.random() < 0.5:
+            x2 = dict(reversed(list(x2.items())))      # equal data whose keys were filled in another order
         if rng.random() < 0.06:
             x1, x2 = rng.choice(_NEAR)
             if rng.random() < 0.5:
@@ -219,7 +227,8 @@ def gen_case(rng, ctx):
     pos = rng.randrange(0, 5)
     for _ in range(n):
         d = rng.choice([0, 0, 1, 1, 2, 3, -1]) * unit
-        evs.append(dict(ts=base + pos * unit, dur=d, data=rng.choice(_DATA[:3]), zone=zone if rng.random() < 0.7 else None))
+        evs.append(dict(ts=base + pos * unit, dur=d, data=_reordered(rng, rng.choice(_DATA[:5] if rng.random() < 0.3 else _DATA[:3])),
+                        zone=zone if rng.random() < 0.7 else None))
         step = rng.choice([0, 1, 1, 2, 3, -1, -2, 5])
         pos = max(0, pos + step)
         if rng.random() < 0.3:   # land exactly on the pulse boundary of the previous end
